@@ -38,6 +38,8 @@ def obligations():
             params={"n_frames": 2, "n_trip": 1, "freq": 0.0, "distance_cutoff": 0.3, "angle_cutoff": 150.0}),
         Obl("C14.wn.f2t1", "py", H, "wernet_nilsson", ["mdtraj.geometry.hbond.wernet_nilsson", "mdtraj.geometry.hbond._compute_bounded_geometry"], "2 frames, 1 triplet",
             "per frame: reported <=> d_DA < 0.33 - 0.000044 * delta_HDA(deg)^2", 300, params={"n_frames": 2, "n_trip": 1}),
+        Obl("C14.bh.nonperiodic", "py", H, "baker_hubbard", bh, "2 frames, 1 triplet, periodic=False", "same criterion; every triangle side measured with the caller's periodic flag", 300, params={"n_frames": 2, "n_trip": 1, "freq": 0.4, "periodic": False}),
+        Obl("C14.wn.nonperiodic", "py", H, "wernet_nilsson", ["mdtraj.geometry.hbond.wernet_nilsson", "mdtraj.geometry.hbond._compute_bounded_geometry"], "2 frames, 1 triplet, periodic=False", "same with periodic=False", 300, params={"n_frames": 2, "n_trip": 1, "periodic": False}),
         Obl("C14.wn.f2t2", "py", H, "wernet_nilsson", ["mdtraj.geometry.hbond.wernet_nilsson"], "2 frames, 2 triplets", "same", 600, params={"n_frames": 2, "n_trip": 2}),
     ]
     K = "harness.c14_ks"
@@ -45,6 +47,9 @@ def obligations():
         Obl("C14.ks.energy", "py", K, "donor_acceptor", ["geometry.cpp:ks_donor_acceptor"], "symbolic coordinates", "E = 2.7888 (1/r_NO + 1/r_HC - 1/r_HO - 1/r_NC), floored at -9.9", 120),
         Obl("C14.ks.driver2", "py", K, "driver", ["geometry.cpp:kabsch_sander", "ks_assign_hydrogens", "store_energies"], "2 residues", "see explanation", 300, params={"n_res": 2}),
         Obl("C14.ks.driver3", "py", K, "driver", ["geometry.cpp:kabsch_sander"], "3 residues (51 paths)", "same incl. best-two bookkeeping", 600, params={"n_res": 3}),
+        Obl("C14.ks.store.empty", "py", K, "store_step", ["geometry.cpp:store_energies (-fno-inline IR)"], "both slots empty, arbitrary new energy", "one inductive step of the best-two bookkeeping", 120, params={"state": "empty"}),
+        Obl("C14.ks.store.one", "py", K, "store_step", ["geometry.cpp:store_energies (-fno-inline IR)"], "one slot filled (arbitrary energy), arbitrary new energy", "same", 120, params={"state": "one"}),
+        Obl("C14.ks.store.two", "py", K, "store_step", ["geometry.cpp:store_energies (-fno-inline IR)"], "both slots filled (arbitrary sorted energies), arbitrary new energy", "slots hold the two lowest of the three, lowest first, each with its own acceptor; other donors untouched", 120, params={"state": "two"}),
         Obl("C14.ks.driver3_proline", "py", K, "driver", ["geometry.cpp:kabsch_sander"], "3 residues, residue 1 proline", "proline donors are never recorded", 600, params={"n_res": 3, "proline": 1}),
         Obl("C14.ks.incomplete_residue", "py", K, "hydrogen_after_incomplete_residue", ["geometry.cpp:ks_assign_hydrogens"], "residue 0 without backbone atoms followed by two complete residues",
             "no coordinate is read through index -1", 300),
